@@ -48,10 +48,7 @@ func cookieViewOf(raw string) string {
 		return "-"
 	}
 	if m := sessPlaceholder.FindStringSubmatch(v); m != nil && m[0] == v {
-		return m[1]
-	}
-	if strings.HasPrefix(v, "unknown-session-") {
-		if n, err := strconv.Atoi(v[len("unknown-session-"):]); err == nil && n >= 0 {
+		if n, err := strconv.Atoi(m[1]); err == nil && n < 100000 {
 			return strconv.Itoa(n)
 		}
 	}
@@ -190,6 +187,7 @@ func generate(r *hxlib.Run, emit func(hxlib.Case)) {
 	g.keyConfigs()
 	g.bridgeDB()
 	g.tcp()
+	g.expiredKeyStorm()
 	for i := 0; i < r.Budget(700, 20000); i++ {
 		g.history()
 	}
@@ -553,6 +551,26 @@ func (g *gen) keyConfigs() {
 			}
 		}
 		g.out("key-config", lines)
+	}
+}
+
+// expiredKeyStorm: configurations containing an already expired key, back to back. Each of them makes
+// updateAPIKeys start the "api key cleanup" microtask, which writes the option concurrently with the
+// caller of the first config change (a lock-order deadlock between two config.SaveConfig calls wedged
+// the config system and, through apiKeysLock, every request presenting a key).
+func (g *gen) expiredKeyStorm() {
+	n := g.r.Budget(40, 400)
+	for i := 0; i < n; i++ {
+		lines := []string{"authset 1", "adv 1000"}
+		t, v := dynRoute(2, 2)
+		for k := 0; k < 10; k++ {
+			name := fmt.Sprintf("storm-key-%d-%d", i, k)
+			entries := []string{keyEntry(name+"-live?read=user&write=user", 0), keyEntry(name+"-dead?read=admin&expires="+expPlaceholder, 500)}
+			lines = append(lines, "keys "+strings.Join(entries, " "),
+				g.req(reqSpec{method: "GET", target: t, rview: v, authz: "Bearer " + name + "-live"}),
+				g.req(reqSpec{method: "GET", target: t, rview: v, authz: "Bearer " + name + "-dead"}))
+		}
+		g.out("expired-key-storm", lines)
 	}
 }
 
